@@ -7,6 +7,20 @@ EXTENDS Rfc3550, Fb, Twcc, Ccfb, Xr
 \* tests pin (so they are recorded, not repaired).  One known_findings.jsonl
 \* entry per name.  D = {} is the strict RFC model.
 Deviations == {"SLI_PT205", "CCFB_NUM", "CCFB_ANY_FMT", "REMB_MANTISSA0"}
+\* the numbers the RFCs and the IANA registries assign to what the package names (RFC 3550 12.1 and 12.2, RFC 4585 6.2 and
+\* 6.3, RFC 5104 4.3, RFC 8888 3.1 with RFC 3168 5: ECT(1) = 01, ECT(0) = 10, RFC 3611 4, the transport-wide-cc draft 3.1)
+ApiConstants ==
+  [ TypeSenderReport |-> 200, TypeReceiverReport |-> 201, TypeSourceDescription |-> 202, TypeGoodbye |-> 203, TypeApplicationDefined |-> 204,
+    TypeTransportSpecificFeedback |-> 205, TypePayloadSpecificFeedback |-> 206, TypeExtendedReport |-> 207,
+    FormatSLI |-> 2, FormatPLI |-> 1, FormatFIR |-> 4, FormatTLN |-> 1, FormatRRR |-> 5, FormatCCFB |-> 11, FormatREMB |-> 15, FormatTCC |-> 15,
+    ECNNonECT |-> 0, ECNECT1 |-> 1, ECNECT0 |-> 2, ECNCE |-> 3,
+    SDESEnd |-> 0, SDESCNAME |-> 1, SDESName |-> 2, SDESEmail |-> 3, SDESPhone |-> 4, SDESLocation |-> 5, SDESTool |-> 6, SDESNote |-> 7, SDESPrivate |-> 8,
+    LossRLEReportBlockType |-> 1, DuplicateRLEReportBlockType |-> 2, PacketReceiptTimesReportBlockType |-> 3, ReceiverReferenceTimeReportBlockType |-> 4,
+    DLRRReportBlockType |-> 5, StatisticsSummaryReportBlockType |-> 6, VoIPMetricsReportBlockType |-> 7,
+    ToHMissing |-> 0, ToHIPv4 |-> 1, ToHIPv6 |-> 2,
+    TypeTCCRunLengthChunk |-> 0, TypeTCCStatusVectorChunk |-> 1,
+    TypeTCCPacketNotReceived |-> 0, TypeTCCPacketReceivedSmallDelta |-> 1, TypeTCCPacketReceivedLargeDelta |-> 2, TypeTCCPacketReceivedWithoutDelta |-> 3,
+    TypeTCCSymbolSizeOneBit |-> 0, TypeTCCSymbolSizeTwoBit |-> 1 ]
 
 PacketKinds == {"SR", "RR", "SDES", "BYE", "APP", "NACK", "RRR", "TWCC", "CCFB",
                 "PLI", "SLI", "FIR", "REMB", "XR"}
